@@ -1,10 +1,12 @@
 #!/bin/bash
-# confirm_all.sh <seed ids...>: confirm seeds; the demo's first line names the directory it belongs in
+# confirm_all.sh <seed ids...>: confirm seeds; the demo's first line names the directory it belongs in ("// place in <dir>")
 for id in "$@"; do
   d=/verif/seeded/$id
-  dir=$(head -3 $d/demo_test.go | grep -o '[a-zA-Z0-9_/.-]*/[a-zA-Z0-9_/.-]*' | grep -v '^//' | head -1 | sed 's#/$##')
-  [ -d /repo/$dir ] || dir=$(grep -m1 '^package' $d/demo_test.go | awk '{print $2}')
-  case $id in C21-*|C23-*) dir=protocols/bgp/server;; C19-*|C16-*) dir=protocols/bgp/packet;; C30-*) dir=protocols/isis/packet;; esac
+  dir=$(head -1 $d/demo_test.go | sed -n 's#^// *place in *\([A-Za-z0-9_/.-]*\).*#\1#p' | sed 's#/$##')
+  if [ -z "$dir" ] || [ ! -d /repo/$dir ]; then
+    dir=$(head -3 $d/demo_test.go | grep -o '[a-zA-Z0-9_/.-]*/[a-zA-Z0-9_/.-]*' | grep -v '^//' | head -1 | sed 's#/$##')
+    case $id in C21-*|C23-*) dir=protocols/bgp/server;; C19-*|C16-*) dir=protocols/bgp/packet;; C30-*) dir=protocols/isis/packet;; esac
+  fi
   echo "##### $id (demo in $dir)"
-  /verif/confirm_seed.sh $d $dir ./net/... ./route/... ./routingtable/... ./protocols/... ./cmd/... ./util/... 2>&1 | grep -v "^$" | cut -c1-160
+  /verif/confirm_seed.sh $d $dir ./net/... ./route/... ./routingtable/... ./protocols/... ./cmd/... ./util/... ./config/... 2>&1 | grep -v "^$" | cut -c1-160
 done
